@@ -8,6 +8,8 @@ DevSharedNameMap == {"SharedNameMap"}
 DevCrossReactionCache == {"CrossReactionCache"}
 \* builders 1 and 2 work on the reaction as generated ("full"), builder 3 on the same decay with a restricted
 \* helicity set of the initial state ("sub")
-RxMap == [b \in Builders |-> IF b = 3 THEN "sub" ELSE "full"]
+DevProcessWideMemo == {"ProcessWideMemo"}
+\* builder 4: the same reaction with another label (LaTeX name) of its resonances - equal for qrules, different for the model
+RxMap == [b \in Builders |-> IF b = 3 THEN "sub" ELSE IF b = 4 THEN "relab" ELSE "full"]
 \* bound the configuration space explored exhaustively: at most one builder has assigned dynamics
 =============================================================================
